@@ -70,6 +70,8 @@ DIRECTED = [
     [C(0), W(0), D(0), C(1), Q(1, v=0), D(1)],             # ... and without a stop the server keeps serving others
     # the user hits return on an empty line in the CLI client, then goes on working
     [C(0, True), Q(0, v=0), {"c": "cliblank", "s": 0}, Q(0, v=5), Q(0, "mutate"), D(0, "exit"), STOP],
+    # a reply that is an empty line (start on a locked pool: PoolIsLocked has no message), raw and through the CLI client
+    [C(0), C(1, True), Q(0, "mutate"), Q(0, v=8), Q(1, v=8), Q(1, v=0), Q(0, v=5), D(0), D(1, "exit"), STOP],
     # the bundled CLI client and a command that takes 6 s: its reply comes when the wait is over, the next command gets its own
     [C(0, True), {"c": "cliwait", "s": 0, "secs": 6}, Q(0, v=0), Q(0, v=5), D(0, "exit"), STOP],
     # every concrete query line through a raw client and through the bundled CLI client (quotes, a 12 kB reply ...)
